@@ -40,6 +40,10 @@ for name in sorted(os.listdir(os.path.join(ROOT, 'seeded'))):
         already = BASES[key]
     r = subprocess.run([os.path.join(ROOT, 'tools', 'try_mutant.sh'), os.path.join(d, 'patch.diff'), prop, 'quick'], capture_output=True, text=True, env=env)
     out = open('/dev/shm/mutrun3/out.txt').read()
+    if ' tier=quick ' not in out:
+        # the check did not run to its summary (worktree not clean, patch rejected, build failure): not a result
+        print(name, prop, 'NOT RUN:', (r.stdout + r.stderr).strip().split('\n')[-1][:200], flush=True)
+        continue
     sigs = [x for x in re.findall(r'signature=(\S+)', out) if x not in already]
     m = re.search(r'(\d+)', str(len(sigs)))
     meta['detected_by'] = {prop: {'tier': 'quick', 'violation_signatures': len(sigs), 'signatures': sigs[:5], 'checked_at_repo_commit': base,
